@@ -361,10 +361,17 @@ impl Sync for CopiaSync {
             match op {
                 DeltaOp::Copy { offset, len } => {
                     basis.seek(SeekFrom::Start(*offset))?;
-                    let mut buffer = vec![0u8; *len as usize];
-                    basis.read_exact(&mut buffer)?;
-                    output.write_all(&buffer)?;
-                    hasher.update(&buffer);
+                    // Copy in bounded pieces: `len` comes from the delta (untrusted,
+                    // up to 4 GiB) and must not size a single allocation.
+                    let mut remaining = *len as usize;
+                    let mut buffer = vec![0u8; remaining.min(self.config.buffer_size.max(1))];
+                    while remaining > 0 {
+                        let n = remaining.min(buffer.len());
+                        basis.read_exact(&mut buffer[..n])?;
+                        output.write_all(&buffer[..n])?;
+                        hasher.update(&buffer[..n]);
+                        remaining -= n;
+                    }
                     bytes_written += u64::from(*len);
                 }
                 DeltaOp::Literal(data) => {
